@@ -19,6 +19,7 @@ import (
 	"errors"
 	"io"
 	"net/http"
+	"strings"
 )
 
 // A Handler is the server-side implementation of a single RPC defined by a
@@ -180,7 +181,10 @@ func (h *Handler) ServeHTTP(responseWriter http.ResponseWriter, request *http.Re
 	}
 
 	// Find our implementation of the RPC protocol in use.
-	contentType := request.Header.Get("Content-Type")
+	// Content-Type is a single value. Sent as several field lines it means
+	// what one line with the values joined by commas would: nothing we serve,
+	// rather than whatever its first line happens to say.
+	contentType := strings.Join(request.Header.Values("Content-Type"), ", ")
 	var protocolHandler protocolHandler
 	for _, handler := range h.protocolHandlers {
 		if _, ok := handler.ContentTypes()[contentType]; ok {
